@@ -8,6 +8,7 @@ Open Scope N_scope."""
 HARNESS_DB = os.path.join(vlib.VERIF, "harness_db")
 TARGET_DB = os.path.join(vlib.VERIF, ".build", "target_db")
 KVDB = os.path.join(TARGET_DB, "debug", "kvdb")
+FJVOL = os.path.join(TARGET_DB, "debug", "fjall_volume")
 
 TB = [
     "Print Assumptions: C11_codes_prefix_free, C11_wide_injective, C11_member_isolation, C11_member_decode, C11_upper_bound, C11_allff, C11_point_read, C11_scan_exact, C11_scan_nodup, C11_batch_atomic, C11_uncommitted_invisible, C11_session closed under the global context (no axioms)",
@@ -25,7 +26,7 @@ def build():
         if not os.path.exists(lock):
             shutil.copy(os.path.join(vlib.REPO, "Cargo.lock"), lock)
         t0 = time.time()
-        rc, out = vlib.sh(["cargo", "build", "--offline", "--bin", "kvdb"], cwd=HARNESS_DB, timeout=3000)
+        rc, out = vlib.sh(["cargo", "build", "--offline", "--bin", "kvdb", "--bin", "fjall_volume"], cwd=HARNESS_DB, timeout=3000)
         return rc, out, time.time() - t0
 
 
@@ -52,6 +53,18 @@ def run(ctx):
         st = harness(["run", cdir, work, ctx.seed, n, shards, rounds])
     finally:
         shutil.rmtree(work, ignore_errors=True)
+    # volume scenario: set members across two memtable flushes of the Fjall store (tombstones must keep
+    # shadowing older on-disk tables); the short histories above never leave the memtable
+    vdir = os.path.join(ctx.rundir, "volume")
+    shutil.rmtree(vdir, ignore_errors=True)
+    try:
+        vrc, vtxt = vlib.sh([FJVOL, vdir], timeout=1200)
+    finally:
+        shutil.rmtree(vdir, ignore_errors=True)
+    try:
+        vol = json.loads(vtxt.strip().splitlines()[-1])
+    except Exception:
+        raise vlib.CheckError("fjall_volume harness failed:\n" + vtxt[-3000:])
     shard_files = sorted(glob.glob(os.path.join(cdir, "shard_*.txt")))
     fails, errors, total = vlib.run_coq_cases("C11", shard_files, HEADER)
     samples = [l[:500] for l in open(shard_files[0]).read().splitlines()[:2]] if shard_files else []
@@ -67,6 +80,11 @@ def run(ctx):
             "probe": probe, "observed": [m for m in real_fail if "atomic probe" in m],
             "rerun": f"{KVDB} run /tmp/c11_probe_out /tmp/c11_probe_work {ctx.seed} 1 1 {rounds}"})
         real_fail = [m for m in real_fail if "atomic probe" not in m]
+    if not vol.get("ok"):
+        ctx.violation("volume_fail.json", {
+            "what": "Fjall backend, volume scenario: after memtable flushes a member scan returned something else than the reference set (a deleted member came back, or an inserted one was lost)",
+            "input": "set column Tags (Key=u32, Element=String): insert members under keys 7 and 8, write ~75 MB of filler (forces a flush), delete/re-insert members, write filler again, scan; reopen, scan",
+            "observed": vol.get("fails"), "rerun": f"{FJVOL} /tmp/c11_volume"})
     for msg in real_fail[:1]:
         m = re.search(r"backend=(\w+) history_seed=(\d+) steps=(\d+)", msg)
         rerun = f"{KVDB} one /tmp/c11_replay {m.group(1)} {m.group(2)} {m.group(3)}" if m else ""
@@ -100,6 +118,7 @@ def run(ctx):
     cov = vlib.proof_coverage(info, "./check C11 (coq_makefile+make closure of Properties/C11.vo; coqc Properties/C11.v; coqc cases)", TB)
     dist = {k: v for k, v in st.items() if k != "rust_fail"}
     dist["harness_db_build_s"] = round(wall, 1)
+    dist["fjall_volume"] = {k: v for k, v in vol.items() if k != "fails"}
     cov.update({
         "traces_validated_against_impl": total,
         "evaluations": st["gets"] + st["scans"],
@@ -122,7 +141,7 @@ def replay(ctx, path):
             build()
             rc, out = vlib.sh(d["rerun"], timeout=900)
             print(out[-3000:])
-            for p in ("/tmp/c11_replay", "/tmp/c11_probe_out", "/tmp/c11_probe_work"):
+            for p in ("/tmp/c11_replay", "/tmp/c11_probe_out", "/tmp/c11_probe_work", "/tmp/c11_volume"):
                 shutil.rmtree(p, ignore_errors=True)
     except Exception:
         pass
